@@ -134,7 +134,12 @@ func (ex *Executor) dispatchCall(st *State, fr *Frame, cc *ssa.CallCommon, fv Va
 	}
 	finish := func(res []Val) bool {
 		if ex.observed(name) && fr.depth <= ex.observeDepth() {
-			st.events = append(st.events, &Event{Kind: "call", Fn: name, Args: args, Res: res, Pos: ex.pos(ins)})
+			eargs := args
+			if cc.IsInvoke() && len(args) == len(cc.Args) {
+				// interface method: the receiver is the first event argument
+				eargs = append([]Val{fv}, args...)
+			}
+			st.events = append(st.events, &Event{Kind: "call", Fn: name, Args: eargs, Res: res, Pos: ex.pos(ins)})
 		}
 		if !deferred {
 			ex.setResult(st, fr, resVal, res)
